@@ -105,6 +105,11 @@ def session(run, rng, seed, nm_list, quick, region='eu-test-1', host='s3.example
             return await coro
         except httpx.HTTPError:
             return None
+        except httpx.InvalidURL as ex:
+            # the adapter could not even form the request for a legal object name: no correctly signed request exists for this
+            # operation (the path was handed over without the percent-encoding SigV4 and the wire both need) - a verdict, not a crash
+            run.violation('P:PathEncodedOnce', 'any', {'operation': label, 'name': repr(path), 'error': repr(ex)[:200], 'seed': seed})
+            return None
         finally:
             for n in range(before + 1, fake.calls + 1):
                 intents[n] = {'op': label, 'path': path, 'kind': kind, 'prefix': prefix, 'tokens': tokens}
